@@ -45,10 +45,7 @@ class Cluster:
             radii(ndarray): Contains the radii for each atom in the cluster as
                 floating point numbers.
         """
-        if isinstance(indices, list):
-            self.indices = indices
-        else:
-            self.indices = list(indices)
+        self.indices = indices
         self.species = species
 
         self._region = region
@@ -60,6 +57,19 @@ class Cluster:
         self._merged = False
         self._bond_threshold = bond_threshold
         self._distance_matrix_radii_mic = None
+
+    @property
+    def indices(self):
+        """The indices of the atoms belonging to this cluster."""
+        return self._indices
+
+    @indices.setter
+    def indices(self, indices):
+        self._indices = indices if isinstance(indices, list) else list(indices)
+        # The cached distance matrix and dimensionality are only valid for the
+        # indices they were calculated with.
+        self._distance_matrix_radii_mic = None
+        self._dimensionality = None
 
     def __len__(self):
         return len(self.indices)
@@ -90,9 +100,13 @@ class Cluster:
         were used during the clustering.
         """
         if self._dimensionality is None:
+            kwargs = {}
+            if self._radii is not None:
+                kwargs["radii"] = np.asarray(self._radii)[self.indices]
             self._dimensionality = matid.geometry.get_dimensionality(
                 self.get_atoms(),
                 self._bond_threshold,
                 dist_matrix_radii_mic_1x=self._get_distance_matrix_radii_mic(),
+                **kwargs,
             )
         return self._dimensionality
